@@ -325,6 +325,10 @@ func (r *Run) SoundnessTrigger() bool { return len(r.tainted) > 0 || r.Did["stal
 // out-of-order path (trigger of the known finding delete-misses-ooo-head-samples).
 func (r *Run) OOODeleteSeen() bool { return len(r.oooDeleteSurvivors) > 0 }
 
+// DeleteShadowSeen reports whether a sample was appended into a previously deleted range of its
+// series at or below the series' newest sample (trigger of delete-hides-later-ooo-append).
+func (r *Run) DeleteShadowSeen() bool { return len(r.hiddenCands) > 0 }
+
 func (r *Run) hasOOOHead(si int) bool {
 	for _, p := range r.M.Series[si].Pts {
 		if p.OOOHead {
